@@ -56,6 +56,12 @@ func (a Any) hoverIndexExprAtPos(ctx context.Context, pos hcl.Pos) (*lang.HoverD
 			}
 			return newExpression(a.pathCtx, eType.Key, cons).HoverAtPos(ctx, pos), true
 		}
+		if eType.Collection.Range().ContainsPos(pos) {
+			cons := schema.AnyExpression{
+				OfType: cty.DynamicPseudoType,
+			}
+			return newExpression(a.pathCtx, eType.Collection, cons).HoverAtPos(ctx, pos), true
+		}
 	}
 
 	return nil, false
@@ -63,10 +69,15 @@ func (a Any) hoverIndexExprAtPos(ctx context.Context, pos hcl.Pos) (*lang.HoverD
 
 func (a Any) semanticTokensForIndexExpr(ctx context.Context) ([]lang.SemanticToken, bool) {
 	if eType, ok := a.expr.(*hclsyntax.IndexExpr); ok {
+		collCons := schema.AnyExpression{
+			OfType: cty.DynamicPseudoType,
+		}
+		tokens := newExpression(a.pathCtx, eType.Collection, collCons).SemanticTokens(ctx)
+
 		cons := schema.AnyExpression{
 			OfType: cty.String, // TODO improve type (see above)
 		}
-		return newExpression(a.pathCtx, eType.Key, cons).SemanticTokens(ctx), true
+		return append(tokens, newExpression(a.pathCtx, eType.Key, cons).SemanticTokens(ctx)...), true
 	}
 
 	return nil, false
